@@ -376,6 +376,13 @@ func (p *sparser) typeName() string {
 	if p.accept("*") {
 		return "*" + p.typeName()
 	}
+	if p.isIdent("map") {
+		p.next()
+		p.expect("[")
+		k := p.typeName()
+		p.expect("]")
+		return "map[" + k + "]" + p.typeName()
+	}
 	n := p.identName()
 	if p.isOp(".") {
 		p.next()
@@ -401,6 +408,13 @@ func (p *sparser) postfix(x SExpr) SExpr {
 			id, ok := x.(*SIdent)
 			if !ok {
 				p.fail("call of non-identifier")
+			}
+			if id.Name == "heap" {
+				// heap(T): the argument is a type
+				tn := p.typeName()
+				p.expect(")")
+				x = &SCall{Fun: "heap", Args: []SExpr{&SIdent{Name: tn}}}
+				continue
 			}
 			x = &SCall{Fun: id.Name, Args: p.args()}
 		case p.accept("["):
@@ -861,4 +875,9 @@ func splitTopLevel(s string) []string {
 		out = append(out, strings.TrimSpace(s[start:]))
 	}
 	return out
+}
+
+func (p *sparser) isIdent(name string) bool {
+	t := p.peek()
+	return t.kind == "ident" && t.text == name
 }
